@@ -26,6 +26,9 @@ package retry
 //@   function
 //@   ensures[C17 nil-is-not-retryable] err == nil ==> !result
 //@
+//@ func isHTTPStatusRetryable
+//@   function
+//@
 //@ func Execute
 //@   requires config == nil || valid(*config)
 //@   ensures[C17 at-most-maxretries-plus-one-attempts] config != nil ==> attempts - old(attempts) <= config.MaxRetries + 1
